@@ -21,6 +21,7 @@
  R5 chaining        : in set_egress_amplifier the (dp, voa) returned for one amplifier are what the next one receives as
                       (prev_dp, prev_voa); the walk starts from the ROADM/transceiver output target.
  Rm memo          : every memoisation construct in the functions behind this property is keyed by everything it reads.
+ Rp presence      : optional numeric fields are tested with `is None` / membership, never by truthiness (0 is a value).
 """
 import ast
 
@@ -404,4 +405,9 @@ from ..memo import rule_for as _memo_rule
 
 RULES_MEMO = ('Rm.memo', _memo_rule('C09', 'the operating point designed for another element or reference would be reused'))
 
-RULES = [('R6.span-loss', r6_span_loss), ('R1.budget', r1_budget), ('R2.rule', r2_rule), ('R3.saturation', r3_saturation), ('R4.voa', r4_voa), ('R5.chaining', r5_chaining), RULES_MEMO]
+
+from ..presence import rule_for as _presence_rule
+
+RULES_PRESENCE = ('Rp.presence', _presence_rule('C09', 'a configured power / gain / VOA of exactly 0 would be replaced by another value in the budget'))
+
+RULES = [('R6.span-loss', r6_span_loss), ('R1.budget', r1_budget), ('R2.rule', r2_rule), ('R3.saturation', r3_saturation), ('R4.voa', r4_voa), ('R5.chaining', r5_chaining), RULES_MEMO, RULES_PRESENCE]
